@@ -67,4 +67,44 @@ def build(reg):
                  ('no-hook-without-plugin', 'isnone(self.plugin) ==> close_hooks == old(close_hooks)')],
         raises={'Exception': [('client-socket-closed-exactly-once', 'closed_socks == old(closed_socks) + [self.work._conn]'),
                               ('close-hook-at-most-once', 'close_hooks <= old(close_hooks) + 1')]}))
+    T += upstream_close_contracts(reg)
+    return T
+
+
+def upstream_close_contracts(reg):
+    """The proxy plugin's close hook (its last statements) and the reverse proxy's: the upstream socket
+    of the connection is closed exactly once -- whether or not the peer is still there, whether or not it
+    was ever connected -- and never twice.  (A user plugin's on_upstream_connection_close hook raising
+    is outside this contract: see F16 in DESIGN.md.)"""
+    TCPC = 'proxy/core/connection/connection.py'
+    reg.klass('ProxyFlags', py=None, fields={'enable_conn_pool': 'bool'})
+    reg.klass('HttpProxyPlugin', py='proxy.http.proxy.server:HttpProxyPlugin', fields={
+        'upstream': ('opt', ('obj', 'TcpServerConnection')), 'flags': ('obj', 'ProxyFlags'),
+        'plugins': ('dict', 'str', ('opaque', 'ProxyBasePlugin')), 'upstream_conn_pool': ('opt', ('opaque', 'ConnPool'))})
+    reg.contract('<plugin>', 'ProxyBasePlugin.on_upstream_connection_close', self_cls='ProxyBasePlugin', assumed=True, modifies=[],
+                 raises={}, note='user hook: assumed not to raise here (F16)')
+    reg.contract('<pool>', 'ConnPool.release', self_cls='ConnPool', params={'conn': ('obj', 'TcpServerConnection')}, assumed=True,
+                 modifies=[], raises={}, note='connection pool keeps or closes the connection itself')
+    up = 'self.upstream'
+    LIVE = '(not isnone(old(%s)) and not old(%s.closed) and not isnone(old(%s._conn)))' % (up, up, up)
+    POSTS = [('upstream-socket-closed-exactly-once', '%s ==> (closed_socks == old(closed_socks) + [old(%s._conn)] and %s.closed)' % (LIVE, up, up)),
+             ('nothing-else-closed', 'not %s ==> closed_socks == old(closed_socks)' % LIVE),
+             ('never-twice', 'len(closed_socks) <= len(old(closed_socks)) + 1')]
+    # a TcpServerConnection that was never connected is born closed (its constructor), connect() clears the flag
+    INV = ('never-connected-means-closed', 'isnone(%s) or (isnone(%s._conn) ==> %s.closed)' % (up, up, up))
+    T = [reg.contract(
+        SV, 'HttpProxyPlugin.on_client_connection_close', self_cls='HttpProxyPlugin', ghost_init={'closed_socks': ('seq', 'int')},
+        body_slice=('for plugin in self.plugins.values():\n            plugin.on_upstream_connection_close()', 'try:'),
+        requires=[('pool-off', 'not self.flags.enable_conn_pool'), INV],
+        modifies=['self.upstream.closed'], ensures=POSTS, raises={},
+        loops={0: LoopSpec(unroll=2)})]
+    reg.klass('ReverseProxy', py='proxy.http.server.reverse:ReverseProxy', fields={'upstream': ('opt', ('obj', 'TcpServerConnection'))})
+    T.append(reg.contract(
+        'proxy/http/server/reverse.py', 'ReverseProxy.on_client_connection_close', self_cls='ReverseProxy',
+        ghost_init={'closed_socks': ('seq', 'int')}, modifies=['self.upstream', 'self.upstream.closed'], requires=[INV],
+        ensures=[('upstream-socket-closed-exactly-once',
+                  '%s ==> closed_socks == old(closed_socks) + [old(%s._conn)]' % (LIVE, up)),
+                 ('nothing-else-closed', 'not %s ==> closed_socks == old(closed_socks)' % LIVE),
+                 ('never-twice', 'len(closed_socks) <= len(old(closed_socks)) + 1')],
+        raises={}))
     return T
